@@ -22,6 +22,7 @@ Notation At := (At buf).
 Notation ok := (ok G PTX buf penv).
 Notation ko := (ko G PTX buf penv).
 Notation kos := (kos G PTX buf penv).
+Notation oks := (oks G PTX buf penv).
 Notation koa := (koa G PTX buf penv).
 Notation T := (T G PTX buf penv).
 Notation Ts := (Ts G PTX buf penv).
@@ -46,6 +47,10 @@ Lemma Cs_cons e es p p1 p2 c1 c2 t t1 t2 : C e p p1 c1 t t1 -> Cs es p1 p2 c2 t1
 Proof. intros (e1 & H1 & E1) (e2 & H2 & E2). exists (e1 ++ e2). split; [eapply Ts_cons; eassumption|rewrite calls_app; congruence]. Qed.
 Lemma Cs_app l1 l2 p p1 p2 c1 c2 t t1 t2 : Cs l1 p p1 c1 t t1 -> Cs l2 p1 p2 c2 t1 t2 -> Cs (l1 ++ l2) p p2 (c1 ++ c2) t t2.
 Proof. intros (e1 & H1 & E1) (e2 & H2 & E2). exists (e1 ++ e2). split; [eapply Ts_app; eassumption|rewrite calls_app; congruence]. Qed.
+Lemma Cs_oks es p p' cs t t' : Cs es p p' cs t t' -> exists f, oks es p p' f.
+Proof. intros (evs & (f & O & _) & _). exists f. exact O. Qed.
+Lemma kos_app_Cs l1 l2 p p1 cs t t1 : Cs l1 p p1 cs t t1 -> kos l2 p1 -> kos (l1 ++ l2) p.
+Proof. intros H K. destruct (Cs_oks _ _ _ _ _ _ H) as [f O]. eapply kos_app; eassumption. Qed.
 Lemma C_seq es p p' cs t t' : Cs es p p' cs t t' -> C (ESeq es) p p' cs t t'.
 Proof. intros (evs & H & E). exists evs. split; [apply T_seq; exact H|exact E]. Qed.
 Lemma Ca_head e es p p' cs t t' : C e p p' cs t t' -> Ca (e :: es) p p' cs t t'.
